@@ -1,5 +1,6 @@
 import AslProofs.Matrix
 import AslProofs.Solve
+import Mathlib.LinearAlgebra.Matrix.Nondegenerate
 /-!
 # C20 — Matrix inverse, determinant, solve and rotation conversions are correct
 
@@ -16,7 +17,7 @@ Property theorems only (helper lemmas: `AslProofs/Matrix.lean`, `AslProofs/Solve
   interface the models are written against); nothing here is about IEEE floating point.
 -/
 namespace C20
-open AslModel AslProofs.Matrix
+open AslModel AslModel.Solve AslProofs.Matrix AslProofs.Solve
 
 variable {K : Type} [Field K]
 
@@ -223,5 +224,135 @@ theorem rotation_is_branch (C : Cmp K) (a : Nat → Nat → K) :
     · split
       · exact Or.inr (Or.inr (Or.inl rfl))
       · exact Or.inr (Or.inr (Or.inr rfl))
+
+/-- over an ordered field (e.g. the reals) with `<` as comparison and a `sqrt` that is a square root on non-negative
+arguments, `rotation()` applied to the matrix of any unit quaternion `q` returns `q` or `-q`: the branch conditions
+guarantee that the selected radicand is `≥ 1`, so no division by a zero root can occur -/
+theorem rotation_correct_ordered {R : Type} [Field R] [LinearOrder R] [IsStrictOrderedRing R]
+    (C : Cmp R) (hlt : ∀ a b, C.lt a b = decide (a < b)) (hsqrt : ∀ z, 0 ≤ z → C.sqrt z * C.sqrt z = z)
+    (q : Quat R) (hq : UnitQuat q) :
+    Gen.M4.rotation (fld R) C (Gen.Q.matrix (fld R) q) = q ∨
+    Gen.M4.rotation (fld R) C (Gen.Q.matrix (fld R) q) = Gen.Q.neg (fld R) q := by
+  have h2 : (2 : R) ≠ 0 := two_ne_zero
+  have key : ∀ z : R, 1 ≤ z → C.sqrt z * C.sqrt z = z ∧ C.sqrt z ≠ 0 := by
+    intro z hz
+    have h := hsqrt z (by linarith)
+    refine ⟨h, ?_⟩
+    intro e
+    rw [e] at h
+    linarith
+  rcases rotation_selects C hlt q hq with ⟨e, h⟩ | ⟨e, h⟩ | ⟨e, h⟩ | ⟨e, h⟩ <;> rw [e]
+  · exact rot0 q hq h2 _ (key _ h).1 (key _ h).2
+  · exact rot1 q h2 _ (key _ h).1 (key _ h).2
+  · exact rot2 q h2 _ (key _ h).1 (key _ h).2
+  · exact rot3 q h2 _ (key _ h).1 (key _ h).2
+
+/-! ## `solve`, `solve_`, `Matrix_::inverse` (Gaussian elimination with row exchanges through a permutation vector)
+
+`pick` is the pivot-selection function (any function with `PickOK pick`: it returns a non-zero candidate of the
+current column whenever one exists); the code's own search loop is one such function (`pivot_search_admissible`). -/
+
+/-- an `r × c` model matrix (entry function) as a Mathlib matrix -/
+def toMat (r c : Nat) (f : Nat → Nat → K) : Matrix (Fin r) (Fin c) K := Matrix.of fun i j => f i.val j.val
+
+/-- `det ≠ 0` gives the kernel formulation of non-singularity used by the elimination proof -/
+theorem ns_of_det (n : Nat) (A : Nat → Nat → K) (h : (toMat n n A).det ≠ 0) : NS n A := by
+  intro y hy c hc
+  have hv : (toMat n n A).mulVec (fun i : Fin n => y i.val) = 0 := by
+    funext r
+    have := hy r.val r.isLt
+    simp only [Matrix.mulVec, dotProduct, toMat, Matrix.of_apply, Pi.zero_apply]
+    rw [← this]
+    unfold dot
+    rw [Finset.sum_range]
+  have := Matrix.eq_zero_of_mulVec_eq_zero h hv
+  exact congrFun this ⟨c, hc⟩
+
+/-- the transcribed pivot search (`max < fabs(A(_[i],k))` loop, `ipivot` starting at 0) is an admissible pivot
+selection for every `fabs`/`<` with `0 < |x| ↔ x ≠ 0` and `|y| < |x| → x ≠ 0` -/
+theorem pivot_search_admissible (C : Cmp K) (hC : CmpOK C) : PickOK (pivotSearch (fld K) C) :=
+  pivotSearch_ok C hC
+
+/-- **solve is exact**: for every non-singular `n × n` matrix `A`, every right-hand side `b` (any number of
+columns) and every admissible pivot selection, `A · solve(A, b) = b` -/
+theorem solve_exact (pick : (Nat → K) → Nat → Nat → Nat) (hpick : PickOK pick) (n m : Nat) (A b : Nat → Nat → K)
+    (hA : (toMat n n A).det ≠ 0) :
+    toMat n n A * toMat n m (solve (fld K) pick ⟨n, n, A⟩ ⟨n, m, b⟩).e = toMat n m b := by
+  have e : solve (fld K) pick ⟨n, n, A⟩ ⟨n, m, b⟩ = solveSq (fld K) pick ⟨n, n, A⟩ ⟨n, m, b⟩ := by
+    simp [solve, solve_]
+  rw [e]
+  ext r j
+  have := solveSq_spec (m := m) (b0 := b) (ns_of_det n A hA) hpick j.val j.isLt r.val r.isLt
+  simp only [Matrix.mul_apply, toMat, Matrix.of_apply]
+  rw [← this]
+  unfold dot
+  rw [Finset.sum_range]
+
+/-- the result does not depend on the pivot choice: any two admissible selections give the same solution -/
+theorem solve_pivot_independent (pick pick' : (Nat → K) → Nat → Nat → Nat) (h : PickOK pick) (h' : PickOK pick')
+    (n m : Nat) (A b : Nat → Nat → K) (hA : (toMat n n A).det ≠ 0) :
+    toMat n m (solve (fld K) pick ⟨n, n, A⟩ ⟨n, m, b⟩).e = toMat n m (solve (fld K) pick' ⟨n, n, A⟩ ⟨n, m, b⟩).e := by
+  have e1 := solve_exact pick h n m A b hA
+  have e2 := solve_exact pick' h' n m A b hA
+  have hu : IsUnit (toMat n n A).det := isUnit_iff_ne_zero.mpr hA
+  calc toMat n m (solve (fld K) pick ⟨n, n, A⟩ ⟨n, m, b⟩).e
+      = (toMat n n A)⁻¹ * (toMat n n A * toMat n m (solve (fld K) pick ⟨n, n, A⟩ ⟨n, m, b⟩).e) := by
+        rw [← Matrix.mul_assoc, Matrix.nonsing_inv_mul _ hu, Matrix.one_mul]
+    _ = (toMat n n A)⁻¹ * (toMat n n A * toMat n m (solve (fld K) pick' ⟨n, n, A⟩ ⟨n, m, b⟩).e) := by rw [e1, e2]
+    _ = _ := by rw [← Matrix.mul_assoc, Matrix.nonsing_inv_mul _ hu, Matrix.one_mul]
+
+/-- `Matrix_::transposed(const Matrix_& b)` is `aᵀ·b` -/
+theorem tmul_eq_mathlib (r c m : Nat) (A B : Nat → Nat → K) :
+    toMat c m (tmul (fld K) ⟨r, c, A⟩ ⟨r, m, B⟩).e = (toMat r c A).transpose * toMat r m B := by
+  ext i j
+  simp [tmul, look_tab, toMat, Matrix.mul_apply, sumTo_eq, Finset.sum_range]
+
+/-- `Matrix_::operator*` is the matrix product -/
+theorem mul_eq_mathlib (r c m : Nat) (A B : Nat → Nat → K) :
+    toMat r m (mul (fld K) ⟨r, c, A⟩ ⟨c, m, B⟩).e = toMat r c A * toMat c m B := by
+  ext i j
+  simp [mul, look_tab, toMat, Matrix.mul_apply, sumTo_eq, Finset.sum_range]
+
+/-- **least squares**: for a non-square `r × c` system whose normal matrix `AᵀA` is non-singular (full column rank),
+`solve(A, b)` satisfies the normal equations `AᵀA x = Aᵀb`, whichever pivots are chosen -/
+theorem lstsq_normal (pick : (Nat → K) → Nat → Nat → Nat) (hpick : PickOK pick) (r c m : Nat) (hrc : r ≠ c)
+    (A b : Nat → Nat → K) (hA : ((toMat r c A).transpose * toMat r c A).det ≠ 0) :
+    (toMat r c A).transpose * toMat r c A * toMat c m (solve (fld K) pick ⟨r, c, A⟩ ⟨r, m, b⟩).e =
+      (toMat r c A).transpose * toMat r m b := by
+  have e : solve (fld K) pick ⟨r, c, A⟩ ⟨r, m, b⟩ =
+      solve (fld K) pick ⟨c, c, (tmul (fld K) ⟨r, c, A⟩ ⟨r, c, A⟩).e⟩ ⟨c, m, (tmul (fld K) ⟨r, c, A⟩ ⟨r, m, b⟩).e⟩ := by
+    simp [solve, solve_, hrc, tmul]
+  rw [e, ← tmul_eq_mathlib r c c A A, ← tmul_eq_mathlib r c m A b]
+  apply solve_exact pick hpick
+  rw [tmul_eq_mathlib]; exact hA
+
+/-- `Matrix_::inverse()` (= `solve(A, identity)`) is a right inverse, hence Mathlib's inverse, of every non-singular matrix -/
+theorem inverse_exact (pick : (Nat → K) → Nat → Nat → Nat) (hpick : PickOK pick) (n : Nat) (A : Nat → Nat → K)
+    (hA : (toMat n n A).det ≠ 0) :
+    toMat n n A * toMat n n (inverse (fld K) pick ⟨n, n, A⟩).e = 1 ∧
+    toMat n n (inverse (fld K) pick ⟨n, n, A⟩).e = (toMat n n A)⁻¹ := by
+  have h1 : toMat n n A * toMat n n (inverse (fld K) pick ⟨n, n, A⟩).e = 1 := by
+    have := solve_exact pick hpick n n A (identity (fld K) n).e hA
+    simp only [inverse, identity] at this ⊢
+    rw [this]
+    ext i j
+    simp [toMat, Matrix.one_apply, Fin.ext_iff]
+  exact ⟨h1, (Matrix.inv_eq_right_inv h1).symm⟩
+
+/-! ## the hypotheses are satisfiable -/
+
+/-- the rationals with `|·|` and `<` satisfy the pivot-search laws -/
+example : CmpOK (⟨fun x => |x|, fun a b => decide (a < b), fun x => x⟩ : Cmp ℚ) :=
+  ⟨fun x => by simp, fun y x h => by
+    simp only [decide_eq_true_eq] at h
+    intro e; rw [e, abs_zero] at h; exact absurd h (not_lt.mpr (abs_nonneg y))⟩
+
+/-- a non-singular matrix with a zero leading entry (a row exchange is unavoidable) -/
+example : (toMat 2 2 (fun i j => if i = j then (0 : ℚ) else 1)).det ≠ 0 := by
+  simp [toMat, Matrix.det_fin_two]
+
+/-- a unit quaternion with all four components non-zero -/
+example : UnitQuat (⟨1/2, 1/2, 1/2, 1/2⟩ : Quat ℚ) := by
+  unfold UnitQuat; norm_num
 
 end C20
